@@ -1031,6 +1031,14 @@ func (ex *Exec) loop(st *State, lp *loopParts, k func(*State)) {
 		}
 	}
 	ex.havocHeap(st, pre, ws, nil)
+	// ghost locals updated by the loop's ghost code are havocked like program variables
+	for _, g := range spec.Ghosts {
+		if id, ok := g.LHS.(*SIdent); ok {
+			if cur, has := st.frame.ghost[id.Name]; has {
+				st.frame.ghost[id.Name] = Val{T: ex.w.freshConst("loop_ghost_"+id.Name, cur.S), S: cur.S, Go: cur.Go}
+			}
+		}
+	}
 	// the typing invariants of havocked variables
 	for obj := range ws.vars {
 		if v, _, ok := st.frame.lookupVar(obj); ok {
